@@ -9,6 +9,7 @@ Not decided: the error bound of the product; FFT accuracy (C10).
 R6 the gadget digits that both external products multiply the rows with are balanced, tile the kept bits and
 recompose (C12's rules re-evaluated): the analytic error bound assumes |digit| <= Bg/2.
 """
+import itertools
 from sa import asm, summ, sym
 from sa.facts import Program
 from sa.sym import I, ZERO
@@ -86,6 +87,8 @@ def check_kernels(chk, v, prog):
         else:
             s = st[0]
             lp = s["loops"][0]
+            if "var" not in lp:
+                chk.broken("%s: the loop at line %s has no closed form" % (name, lp.get("l")))
             i = lp["var"]
             ns2 = sym.arrow(P(res, "proc"), "Ns2")
             if not summ.visits(lp, ZERO, ns2):
@@ -104,6 +107,8 @@ def check_kernels(chk, v, prog):
             if len(cs) == 1:
                 c2 = cs[0]
                 lp = c2["loops"][0]
+                if "var" not in lp:
+                    chk.broken("%s: the loop at line %s has no closed form (bounds taken from a helper's result object)" % (name, lp.get("l")))
                 i = lp["var"]
                 ns2 = sym.arrow(P(res, "proc"), "Ns2")
                 ea, eb = sym.idx(P(a, "coefsC"), i), sym.idx(P(b, "coefsC"), i)
@@ -389,18 +394,43 @@ def run(chk):
         ac = calls(aps, "LagrangeHalfCPolynomialAddTorusConstant")
         ares, apar = [p["n"] for p in ah.params]
         problems = []
-        if len(ac) != 1 or len(ac[0]["loops"]) != 2:
-            problems.append("expected one constant addition in a (j, i) nest")
-        else:
-            jl, il = ac[0]["loops"]
-            j, i = jl["var"], il["var"]
-            if rng(jl) != (ZERO, P(apar, "l")) or rng(il) != (ZERO, sym.add(sym.arrow(P(apar, "tlwe_params"), "k"), I(1))):
-                problems.append("ranges j in %s, i in %s" % ([sym.show(t) for t in rng(jl)], [sym.show(t) for t in rng(il)]))
-            want = sym.addr(sym.idx(sym.fld(sym.idx(sym.idx(P(ares, "sample"), i), j), "a"), i))
-            if ac[0]["args"][0] != want or ac[0]["args"][1] != sym.idx(P(apar, "h"), j):
-                problems.append("adds %s to %s" % (sym.show(ac[0]["args"][1]), sym.show(ac[0]["args"][0])))
+        # every constant addition is resolved to (row, component, gadget index) and the calls are enumerated over their loop nests
+        # (any nesting order, cached row pointers, flat or blocked) for k, l in 1..3: exactly {(i*l + j, i, j)}, once each
+        Lh, Kh = P(apar, "l"), sym.arrow(P(apar, "tlwe_params"), "k")
+
+        def addh_terms(c_):
+            base, comp = sym.ptr_split(c_["args"][0])
+            hb, hidx = (c_["args"][1][1], c_["args"][1][2]) if c_["args"][1][0] == "idx" else (None, None)
+            if hb != P(apar, "h") or not (base[0] == "fld" and base[2] == "a"):
+                raise concrete.NotEvaluable("constant %s added to %s at line %s" % (sym.show(c_["args"][1])[:40], sym.show(c_["args"][0])[:60], c_["line"]))
+            row = base[1]
+            if row[0] == "idx" and row[1][0] == "idx" and row[1][1] == P(ares, "sample"):
+                rt = sym.add(sym.mul(row[1][2], Lh), row[2])
+            elif row[0] == "idx" and row[1] == P(ares, "all_samples"):
+                rt = row[2]
+            else:
+                raise concrete.NotEvaluable("row %s at line %s is not reached through sample[i][j] or all_samples[r]" % (sym.show(row)[:60], c_["line"]))
+            return (rt, comp, hidx)
+        opq = [p_ for p_ in summ.opaque_writers(v, aps) if p_.get("name") != "LagrangeHalfCPolynomialAddTorusConstant"]
+        if opq or not ac:
+            chk.broken("tGswFFTAddH: %s" % ("memory may be written by " + summ.show_opaque(opq) if opq else "no constant addition found"))
+        try:
+            for kv, lv in itertools.product((1, 2, 3), (1, 2, 3)):
+                seen = concrete.visited_tuples(ac, addh_terms, {Kh: kv, Lh: lv})
+                wantset = sorted((i_ * lv + j_, i_, j_) for i_ in range(kv + 1) for j_ in range(lv))
+                if sorted(seen) != wantset:
+                    miss = [t_ for t_ in wantset if t_ not in seen]
+                    extra = [t_ for t_ in seen if t_ not in wantset]
+                    dup = [t_ for t_ in set(seen) if seen.count(t_) > 1]
+                    problems.append("with k = %d, l = %d: %s" % (kv, lv, "; ".join(
+                        (["h[%d] is never added on component %d of row %d" % (miss[0][2], miss[0][1], miss[0][0])] if miss else []) +
+                        (["h[%d] is added on component %d of row %d" % (extra[0][2], extra[0][1], extra[0][0])] if extra else []) +
+                        (["h[%d] is added %d times on component %d of row %d" % (dup[0][2], seen.count(dup[0]), dup[0][1], dup[0][0])] if dup and not (miss or extra) else []))))
+                    break
+        except concrete.NotEvaluable as ex_:
+            chk.broken("tGswFFTAddH: %s" % ex_)
         chk.require(not problems, "R1", "tGswFFTAddH adds h[j] on component i of row (i, j) for all i <= k, j < l", where=ah.where,
-                    ok="sample[i][j].a[i] += h[j]", bad="; ".join(problems), variant=vn)
+                    ok="%d call site(s), enumerated for k, l in 1..3: sample[i][j].a[i] += h[j] for every (i, j), once" % len(ac), bad="; ".join(problems), variant=vn)
         # ---------------- R2 CMux
         for suffix, ext in (("", "tGswExternMulToTLwe"), ("_FFT", "tGswFFTExternMulToTLwe")):
             m = v.fn("tfhe_MuxRotate" + suffix)
